@@ -232,7 +232,44 @@ fn on_spans(rep: &mut Report) {
         }
     }
     let _ = Ab.get_content();
+    // case-insensitivity is about ASCII letters only: punctuation and digits have no other spelling
+    rep.rules += 2;
+    for (text, exp) in [("[ab]", Some("[ab]")), ("[AB]", Some("[AB]")), ("{ab}", None), ("[ab}", None), ("[\u{1}b]", None)] {
+        rep.cases += 1;
+        let got = parse::<Insens<KwP>>(text, &[]).map(|(_, n)| n.content.to_string());
+        if got.as_deref() != exp {
+            bad(rep, "Insens<\"[ab]\">", text, format!("{:?}", exp), format!("{:?}", got));
+        }
+    }
+    for (text, exp) in [("x_1-", Some("x_1-")), ("X_1-", Some("X_1-")), ("x\u{7f}1-", None), ("x_\u{11}-", None), ("x_1\r", None)] {
+        rep.cases += 1;
+        let got = parse::<Insens<KwQ>>(text, &[]).map(|(_, n)| n.content.to_string());
+        if got.as_deref() != exp {
+            bad(rep, "Insens<\"x_1-\">", text, format!("{:?}", exp), format!("{:?}", got));
+        }
+    }
+    // ASCII_HEX_DIGIT = '0'..'9' | 'a'..'f' | 'A'..'F': the accessor index follows that order
+    rep.rules += 1;
+    for c in "0123456789abcdefABCDEFgG:@`".chars() {
+        rep.cases += 1;
+        let s = c.to_string();
+        let exp = if c.is_ascii_digit() { Some(0) } else if ('a'..='f').contains(&c) { Some(1) } else if ('A'..='F').contains(&c) { Some(2) } else { None };
+        let got = parse::<pest_typed::predefined_node::ASCII_HEX_DIGIT>(&s, &[]).map(|(_, n)| {
+            let v: Vec<usize> = [n._0().map(|x| x.content), n._1().map(|x| x.content), n._2().map(|x| x.content)]
+                .iter()
+                .enumerate()
+                .filter(|(_, x)| **x == Some(c))
+                .map(|(i, _)| i)
+                .collect();
+            if v.len() == 1 { v[0] } else { 99 }
+        });
+        if got != exp {
+            bad(rep, "ASCII_HEX_DIGIT accessors", &s, format!("{:?}", exp), format!("{:?}", got));
+        }
+    }
 }
+sw!(KwP, "[ab]");
+sw!(KwQ, "x_1-");
 
 pub fn run(o: &Opts) -> Report {
     let mut rep = Report::default();
